@@ -401,6 +401,11 @@ class PeerConnection:
                 f"connection has been closed, ignoring received message")
             return
 
+        if self.state == PEER_CLOSING:
+            self.logger.warning(
+                f"connection is closing, ignoring received message")
+            return
+
         if self.state == PEER_CONNECTED:
             if msg.header.command_code != constants.CMD_CAPABILITIES_EXCHANGE:
                 self.logger.warning(
